@@ -144,17 +144,21 @@ def mutate_case(rng, case):
 
 
 CLAIMED = True
-LEVEL_TEXT = ("Theorems about the mirrored model, every fan-in-limited circuit L (closed, acyclic, <= 2 operands, constants undriven, gates "
-              "driven): C17_shape -- every returned supergate has exactly one output and its gates carry the type and the WHOLE fan-in they "
-              "have in L (dominator theory over least closed sets: an operand is a tree child or a tree sibling of its gate; a gate that does "
-              "not dominate one of its two operands has at most one tree child); C17_cover_single -- for one output every non-input node "
-              "reaching the output is a gate of a returned supergate (immediate dominators exist, the traversal reaches every tree node, the "
-              "minimal-cover filter keeps every supergate); C17_model_order_partial -- the model's list is in dependency order. "
+LEVEL_TEXT = ("Theorems about the mirrored model, every fan-in-limited circuit L (closed, acyclic, <= 2 operands, constants and inputs undriven, "
+              "gates driven): C17_shape -- every returned supergate has exactly one output and its gates carry the type and the WHOLE fan-in they "
+              "have in L; C17_independence -- the inputs of every returned supergate have pairwise disjoint transitive fan-in in L (any number "
+              "of outputs); C17_cover_single -- for one output every non-input node reaching it is a gate of a returned supergate; "
+              "C17_single_output -- hence all four clauses of the property for single-output circuits (the super-circuit's domain); "
+              "C17_cover_prefilter_partial -- for any number of outputs every gate of an output cone is a gate of a supergate of the "
+              "de-duplicated list before the minimal-cover filter; C17_model_order_partial -- the model's list is in dependency order. "
+              "(Dominator theory over least closed sets: dominance is transitive and antisymmetric, strict dominators form a chain, an operand "
+              "is a tree child or sibling of its gate, a gate not dominating one of its two operands has at most one tree child.) "
               "Theorems for all circuits and all lists: the four checkers are sound for the clauses stated over paths (C17_checkers_sound). "
-              "NOT proved: cover for several outputs and independence of the construction (C17_cover_full, C17_independence_full stay "
-              "Definitions); these clauses and the order of the implementation's own list are decided per run by the verified checkers on what "
-              "the implementation returned (translation validation). The super-circuit clause is oracle-level (fill_blackbox + exhaustive "
-              "evaluation). Constants of the source are regenerated on every run by a fail-closed plug-in (C17_tables_ok).")
+              "NOT proved: that with several outputs the minimal-cover filter never drops the last supergate holding a gate (C17_cover_full "
+              "stays a Definition; no counterexample in 60 000 model runs); this and the order of the implementation's own list are decided "
+              "per run by the verified checkers on what the implementation returned (translation validation). The super-circuit clause is "
+              "oracle-level (fill_blackbox + exhaustive evaluation). Constants of the source are regenerated on every run by a fail-closed "
+              "plug-in (C17_tables_ok).")
 LEVEL_NOTE = ("The model's searches and queues run on fuel and their results are certificate-checked inside the model (closure of every "
               "searched set, closure/route/depth of every grown set, distinct roots, frontier exhausted); the model has no value (OutOfFuel) if a "
               "check fails, which the correspondence run shows never happens; the proofs use only the checked facts and the leastness of the "
